@@ -192,7 +192,7 @@ STAGES = [
           strategy=strategy_files,
           examples={
               "quick": 1500,
-              "thorough": 15000
+              "thorough": 60000
           },
           setup=setup),
     Stage(name="grid",
@@ -205,7 +205,7 @@ STAGES = [
           strategy=strategy_dataset,
           examples={
               "quick": 160,
-              "thorough": 2000
+              "thorough": 8000
           },
           fork=True,
           setup=setup),
